@@ -477,6 +477,9 @@ func (e *Engine) callFunc(st *State, fn *ssa.Function, args []Value, bindings []
 			return e.ret(st, Tuple{})
 		}
 	}
+	if outs, ok := e.hostRedirect(st, fn, name, args, ins); ok {
+		return outs
+	}
 	if h, ok := intrinsics[name]; ok {
 		e.Models[name] = true
 		return h(e, st, fn, args, ins)
